@@ -348,7 +348,7 @@ pub fn run_check(prop: &Prop, thorough: bool, verif_seed: u64, jobs: usize, scal
             break;
         }
         let cfgm = RunCfg { index: *index, sub: *sub, thorough, tracing: false, want_sample: false };
-        let min = minimise(prop, tape.clone(), &cfgm, &v.code, 2500);
+        let min = minimise(prop, tape.clone(), &cfgm, &v.code, 20_000);
         let cfgt = RunCfg { index: *index, sub: *sub, thorough, tracing: true, want_sample: true };
         let (c, out) = run_one(prop, Tape::replay(min.clone()), &cfgt);
         let (fv, final_tape) = match out {
@@ -534,10 +534,47 @@ pub fn minimise(prop: &Prop, tape: Vec<u64>, cfg: &RunCfg, code: &str, budget: u
     } else {
         return cur;
     }
+    let t_start = Instant::now();
+    // first pass: zero large spans (keeps the alignment of all later draws)
+    {
+        let mut sp = (cur.len() / 2).max(1).next_power_of_two();
+        while sp >= 1 && used < budget {
+            let mut i = 0;
+            while i < cur.len() {
+                let end = (i + sp).min(cur.len());
+                if cur[i..end].iter().any(|v| *v != 0) {
+                    let mut cand = cur.clone();
+                    for v in cand[i..end].iter_mut() {
+                        *v = 0;
+                    }
+                    if let Some(n) = try_tape(&cand, &mut used) {
+                        cur = n;
+                    }
+                }
+                i += sp;
+            }
+            if sp == 1 {
+                break;
+            }
+            sp /= 2;
+        }
+    }
     loop {
         let before = (cur.len(), cur.iter().sum::<u64>());
-        // delete spans
-        for span in [64usize, 32, 16, 8, 4, 2, 1] {
+        if t_start.elapsed().as_secs() > 25 {
+            break;
+        }
+        // delete spans, from half the tape down to single draws
+        let mut spans: Vec<usize> = Vec::new();
+        let mut sp = (cur.len() / 2).max(1).next_power_of_two();
+        while sp >= 1 {
+            spans.push(sp);
+            if sp == 1 {
+                break;
+            }
+            sp /= 2;
+        }
+        for span in spans {
             let mut i = 0;
             while i + span <= cur.len() && used < budget {
                 let mut cand = cur.clone();
